@@ -229,3 +229,228 @@ package oidc
 //@   requires valid(t) && valid(i)
 //@   modifies t.Subject, t.UserInfoProfile, t.UserInfoEmail, t.UserInfoPhone, t.Address, t.Claims
 //@   ensures subject-from-userinfo: t.Subject == i.Subject
+
+// ---- C12: claims codec ----
+//
+// Model of encoding/json used here (assumed, see /verif/govc/json.go): jsonEnc(v) is what
+// Encoder.Encode(v) writes, docHas(doc, k) / docVal(doc, k) are the members of a JSON object and
+// their generic decoding, decoding an object into a non-nil map[string]any overwrites exactly the
+// members of the document, jsonAny(doc) is the generic decoding of a whole document.
+//
+// registeredWin(m, registered): map m holds every member of the encoded registered claims with the
+// registered value; customKept(m, registered, extra): apart from those, m holds exactly the custom claims.
+//@ spec func registeredWin(m map[string]any, registered any) bool =
+//@      forall k string :: docHas(jsonEnc(registered), k) ==> haskey(m, k) && m[k] == docVal(jsonEnc(registered), k)
+//@ spec func customKept(m map[string]any, registered any, extra map[string]any) bool =
+//@      forall k string :: !docHas(jsonEnc(registered), k) ==> (haskey(m, k) <==> haskey(extra, k)) && (haskey(extra, k) ==> m[k] == extra[k])
+
+//@ loop oidc.mergeAndMarshalClaims#1
+//@   invariant copy-of-custom: forall k string :: haskey(merged, k) ==> haskey(extraClaims, k) && merged[k] == extraClaims[k]
+//@   invariant produced-are-copied: forall k string :: ranged(k) ==> haskey(merged, k)
+//@   invariant own-map: merged != nil && fresh(merged)
+//@   invariant custom-untouched: mapkeys(extraClaims) == old(mapkeys(extraClaims)) && mapvals(extraClaims) == old(mapvals(extraClaims))
+//@   invariant buffer-kept: Buf_content[box(buf)] == jsonEnc(registered)
+//@ func oidc.mergeAndMarshalClaims
+//@   modifies nothing
+//@   ensures registered-only: err == nil && len(extraClaims) == 0 ==> bstr(result0) == jsonEnc(registered)
+//@   ensures merged-encoded: err == nil && len(extraClaims) > 0 ==> jsonSpace(decRest())
+//@        && bstr(result0) == concat(decRest(), jsonEnc(callarg("encoding/json.Encoder.Encode#2", 1)))
+//@   ensures encodes-a-map: err == nil && len(extraClaims) > 0 ==> typeis(callarg("encoding/json.Encoder.Encode#2", 1), "map[string]any")
+//@   ensures registered-wins: err == nil && len(extraClaims) > 0 ==> registeredWin(as(callarg("encoding/json.Encoder.Encode#2", 1), "map[string]any"), registered)
+//@   ensures custom-kept: err == nil && len(extraClaims) > 0 ==> customKept(as(callarg("encoding/json.Encoder.Encode#2", 1), "map[string]any"), registered, extraClaims)
+//@   ensures fail-nil: err != nil ==> len(result0) == 0
+//@   ensures own-buffer: err == nil ==> fresh(callarg("bytes.Buffer.Bytes", 0))
+
+// unmarshalJSONMulti hands the same document to every destination, in order, and reports the first failure.
+//@ loop oidc.unmarshalJSONMulti#1
+//@   invariant all-so-far-decoded: true
+//@ func oidc.unmarshalJSONMulti
+//@   ensures same-document: calledAny("encoding/json.Unmarshal") ==> lastarg("encoding/json.Unmarshal", 0) == data
+
+// ---- tolerant decoders (by case of the generic decoding jsonAny(document)) ----
+
+//@ loop oidc.Audience.UnmarshalJSON#1
+//@   invariant copied: forall j int :: 0 <= j && j <= rangeindex ==> typeis(aud[j], "string") && (*a)[j] == as(aud[j], "string")
+//@   invariant length: len(*a) == len(aud)
+//@   invariant own-array: fresh(*a)
+//@ func oidc.Audience.UnmarshalJSON
+//@   requires a != nil
+//@   modifies *a
+//@   ensures decode-error: lastres("encoding/json.Unmarshal", 0) != nil ==> err != nil
+//@   ensures string-form: err == nil && typeis(jsonAny(bstr(text)), "string") ==> len(*a) == 1 && (*a)[0] == as(jsonAny(bstr(text)), "string")
+//@   ensures array-form: err == nil && typeis(jsonAny(bstr(text)), "[]any") ==> len(*a) == len(as(jsonAny(bstr(text)), "[]any"))
+//@        && forall j int :: 0 <= j && j < len(*a) ==> typeis(as(jsonAny(bstr(text)), "[]any")[j], "string") && (*a)[j] == as(as(jsonAny(bstr(text)), "[]any")[j], "string")
+//@   ensures other-forms-leave-zero: err == nil && !typeis(jsonAny(bstr(text)), "string") && !typeis(jsonAny(bstr(text)), "[]any") ==> *a == old(*a)
+
+// Time: number -> that many seconds (truncated, only inside the int64 range); RFC 3339 string ->
+// its Unix seconds (zero time -> 0); null -> 0; everything else is an error.
+//@ spec func timeParseOK(layout string, value string) bool
+//@ spec func timeParsed(layout string, value string) time
+//@ func oidc.Time.UnmarshalJSON
+//@   requires ts != nil
+//@   modifies *ts
+//@   ensures decode-error: lastres("encoding/json.Unmarshal", 0) != nil ==> err != nil
+//@   ensures number-in-range: err == nil && typeis(jsonAny(bstr(data)), "float64") ==> inInt64Range(as(jsonAny(bstr(data)), "float64")) && *ts == truncFloat(as(jsonAny(bstr(data)), "float64"))
+//@   ensures number-out-of-range: typeis(jsonAny(bstr(data)), "float64") && !inInt64Range(as(jsonAny(bstr(data)), "float64")) ==> err != nil
+//@   ensures rfc3339-string: err == nil && typeis(jsonAny(bstr(data)), "string") ==> timeParseOK("2006-01-02T15:04:05Z07:00", as(jsonAny(bstr(data)), "string"))
+//@        && *ts == fromTime(timeParsed("2006-01-02T15:04:05Z07:00", as(jsonAny(bstr(data)), "string")))
+//@   ensures bad-string: lastres("encoding/json.Unmarshal", 0) == nil && typeis(jsonAny(bstr(data)), "string") && !timeParseOK("2006-01-02T15:04:05Z07:00", as(jsonAny(bstr(data)), "string")) ==> err != nil
+//@   ensures null-is-zero: err == nil && jsonAny(bstr(data)) == nil ==> *ts == 0
+//@   ensures other-forms-rejected: lastres("encoding/json.Unmarshal", 0) == nil && jsonAny(bstr(data)) != nil && !typeis(jsonAny(bstr(data)), "float64") && !typeis(jsonAny(bstr(data)), "string") ==> err != nil
+//@   ensures error-keeps-value: err != nil ==> *ts == old(*ts)
+
+// Bool: true exactly for the documents true and "true"; never an error; any other document leaves the value.
+//@ func oidc.Bool.UnmarshalJSON
+//@   requires bs != nil
+//@   modifies *bs
+//@   ensures never-fails: err == nil
+//@   ensures true-forms: bstr(data) == "true" || bstr(data) == "\"true\"" ==> *bs == true
+//@   ensures other-forms-keep: !(bstr(data) == "true" || bstr(data) == "\"true\"") ==> *bs == old(*bs)
+
+// SpaceDelimitedArray: a JSON string, split at single spaces.
+//@ func oidc.SpaceDelimitedArray.UnmarshalJSON
+//@   requires s != nil
+//@   modifies *s
+//@   ensures decode-error: lastres("encoding/json.Unmarshal", 0) != nil ==> err != nil && *s == old(*s)
+//@   ensures split: err == nil ==> len(*s) == splitCount(jsonStr(bstr(data)), " ") && forall j int :: 0 <= j && j < len(*s) ==> (*s)[j] == splitPart(jsonStr(bstr(data)), " ", j)
+//@ func oidc.SpaceDelimitedArray.UnmarshalText
+//@   requires s != nil
+//@   modifies *s
+//@   ensures split: err == nil && len(*s) == splitCount(bstr(text), " ") && forall j int :: 0 <= j && j < len(*s) ==> (*s)[j] == splitPart(bstr(text), " ", j)
+
+// ParseLocales builds its result in storage of its own and keeps at most one tag per input member.
+//@ loop oidc.ParseLocales#1
+//@   invariant own-array: fresh(out)
+//@   invariant bounded: len(out) <= rangeindex + 1
+//@ func oidc.ParseLocales
+//@   modifies nothing
+//@   ensures at-most-one-per-member: len(result) <= len(locales)
+//@   ensures own-array: fresh(result)
+
+// Locales: null -> nil, string -> the parsed space separated tags, array of strings -> the parsed
+// members, anything else (including an array with a non-string member) -> error.
+//@ func oidc.Locales.UnmarshalJSON
+//@   requires l != nil
+//@   modifies *l
+//@   ensures decode-error: lastres("encoding/json.Unmarshal", 0) != nil ==> err != nil
+//@   ensures null-is-nil: err == nil && jsonAny(bstr(data)) == nil ==> len(*l) == 0 && cap(*l) == 0
+//@   ensures other-forms-rejected: lastres("encoding/json.Unmarshal", 0) == nil && jsonAny(bstr(data)) != nil && !typeis(jsonAny(bstr(data)), "string") && !typeis(jsonAny(bstr(data)), "[]any") ==> err != nil
+//@   ensures string-form-parsed: err == nil && typeis(jsonAny(bstr(data)), "string") ==> calledAny("oidc.ParseLocales") && *l == lastres("oidc.ParseLocales", 0)
+//@   ensures array-members-checked: err == nil && typeis(jsonAny(bstr(data)), "[]any") ==> calledAny("github.com/muhlemmer/gu.AssertInterfaces") && lastres("github.com/muhlemmer/gu.AssertInterfaces", 1) == nil
+
+// Display: one of the four registered values, anything else leaves the value (zero) - never an error.
+//@ func oidc.Display.UnmarshalText
+//@   requires d != nil
+//@   modifies *d
+//@   ensures never-fails: err == nil
+//@   ensures registered-only: *d == old(*d) || (str(*d) == bstr(text) && (*d == DisplayPage || *d == DisplayPopup || *d == DisplayTouch || *d == DisplayWAP))
+
+// ---- the MarshalJSON / UnmarshalJSON pairs: every claims type encodes its alias view (a type without
+// MarshalJSON: no recursion) merged with its own custom claims through mergeAndMarshalClaims, and
+// decodes one document into the alias view and into its custom-claims map ----
+//@ func oidc.AccessTokenClaims.MarshalJSON
+//@   requires a != nil
+//@   modifies nothing
+//@   ensures merges-alias-view: called("oidc.mergeAndMarshalClaims") && typeis(callarg("oidc.mergeAndMarshalClaims", 0), "*atcAlias") && as(callarg("oidc.mergeAndMarshalClaims", 0), "*atcAlias") == a
+//@   ensures with-own-custom-claims: callarg("oidc.mergeAndMarshalClaims", 1) == a.Claims
+//@   ensures result-is-the-merge: result0 == callres("oidc.mergeAndMarshalClaims", 0) && result1 == callres("oidc.mergeAndMarshalClaims", 1)
+//@   ensures alias-has-no-marshaler: !hasMethod("*atcAlias", "MarshalJSON") && !hasMethod("*atcAlias", "UnmarshalJSON")
+//@ func oidc.AccessTokenClaims.UnmarshalJSON
+//@   requires a != nil
+//@   ensures same-document: called("oidc.unmarshalJSONMulti") && callarg("oidc.unmarshalJSONMulti", 0) == data && result == callres("oidc.unmarshalJSONMulti", 0)
+//@   ensures into-alias-view: len(callarg("oidc.unmarshalJSONMulti", 1)) == 2 && typeis(callargelem("oidc.unmarshalJSONMulti", 1, 0), "*atcAlias") && as(callargelem("oidc.unmarshalJSONMulti", 1, 0), "*atcAlias") == a
+//@   ensures into-own-custom-claims: typeis(callargelem("oidc.unmarshalJSONMulti", 1, 1), "*map[string]any") && as(callargelem("oidc.unmarshalJSONMulti", 1, 1), "*map[string]any") == addr(a.Claims)
+
+//@ func oidc.IDTokenClaims.MarshalJSON
+//@   requires i != nil
+//@   modifies nothing
+//@   ensures merges-alias-view: called("oidc.mergeAndMarshalClaims") && typeis(callarg("oidc.mergeAndMarshalClaims", 0), "*itcAlias") && as(callarg("oidc.mergeAndMarshalClaims", 0), "*itcAlias") == i
+//@   ensures with-own-custom-claims: callarg("oidc.mergeAndMarshalClaims", 1) == i.Claims
+//@   ensures result-is-the-merge: result0 == callres("oidc.mergeAndMarshalClaims", 0) && result1 == callres("oidc.mergeAndMarshalClaims", 1)
+//@   ensures alias-has-no-marshaler: !hasMethod("*itcAlias", "MarshalJSON") && !hasMethod("*itcAlias", "UnmarshalJSON")
+//@ func oidc.IDTokenClaims.UnmarshalJSON
+//@   requires i != nil
+//@   ensures same-document: called("oidc.unmarshalJSONMulti") && callarg("oidc.unmarshalJSONMulti", 0) == data && result == callres("oidc.unmarshalJSONMulti", 0)
+//@   ensures into-alias-view: len(callarg("oidc.unmarshalJSONMulti", 1)) == 2 && typeis(callargelem("oidc.unmarshalJSONMulti", 1, 0), "*itcAlias") && as(callargelem("oidc.unmarshalJSONMulti", 1, 0), "*itcAlias") == i
+//@   ensures into-own-custom-claims: typeis(callargelem("oidc.unmarshalJSONMulti", 1, 1), "*map[string]any") && as(callargelem("oidc.unmarshalJSONMulti", 1, 1), "*map[string]any") == addr(i.Claims)
+
+//@ func oidc.ActorClaims.MarshalJSON
+//@   requires c != nil
+//@   modifies nothing
+//@   ensures merges-alias-view: called("oidc.mergeAndMarshalClaims") && typeis(callarg("oidc.mergeAndMarshalClaims", 0), "*acAlias") && as(callarg("oidc.mergeAndMarshalClaims", 0), "*acAlias") == c
+//@   ensures with-own-custom-claims: callarg("oidc.mergeAndMarshalClaims", 1) == c.Claims
+//@   ensures result-is-the-merge: result0 == callres("oidc.mergeAndMarshalClaims", 0) && result1 == callres("oidc.mergeAndMarshalClaims", 1)
+//@   ensures alias-has-no-marshaler: !hasMethod("*acAlias", "MarshalJSON") && !hasMethod("*acAlias", "UnmarshalJSON")
+//@ func oidc.ActorClaims.UnmarshalJSON
+//@   requires c != nil
+//@   ensures same-document: called("oidc.unmarshalJSONMulti") && callarg("oidc.unmarshalJSONMulti", 0) == data && result == callres("oidc.unmarshalJSONMulti", 0)
+//@   ensures into-alias-view: len(callarg("oidc.unmarshalJSONMulti", 1)) == 2 && typeis(callargelem("oidc.unmarshalJSONMulti", 1, 0), "*acAlias") && as(callargelem("oidc.unmarshalJSONMulti", 1, 0), "*acAlias") == c
+//@   ensures into-own-custom-claims: typeis(callargelem("oidc.unmarshalJSONMulti", 1, 1), "*map[string]any") && as(callargelem("oidc.unmarshalJSONMulti", 1, 1), "*map[string]any") == addr(c.Claims)
+
+//@ func oidc.JWTProfileAssertionClaims.MarshalJSON
+//@   requires j != nil
+//@   modifies nothing
+//@   ensures merges-alias-view: called("oidc.mergeAndMarshalClaims") && typeis(callarg("oidc.mergeAndMarshalClaims", 0), "*jpaAlias") && as(callarg("oidc.mergeAndMarshalClaims", 0), "*jpaAlias") == j
+//@   ensures with-own-custom-claims: callarg("oidc.mergeAndMarshalClaims", 1) == j.Claims
+//@   ensures result-is-the-merge: result0 == callres("oidc.mergeAndMarshalClaims", 0) && result1 == callres("oidc.mergeAndMarshalClaims", 1)
+//@   ensures alias-has-no-marshaler: !hasMethod("*jpaAlias", "MarshalJSON") && !hasMethod("*jpaAlias", "UnmarshalJSON")
+//@ func oidc.JWTProfileAssertionClaims.UnmarshalJSON
+//@   requires j != nil
+//@   ensures same-document: called("oidc.unmarshalJSONMulti") && callarg("oidc.unmarshalJSONMulti", 0) == data && result == callres("oidc.unmarshalJSONMulti", 0)
+//@   ensures into-alias-view: len(callarg("oidc.unmarshalJSONMulti", 1)) == 2 && typeis(callargelem("oidc.unmarshalJSONMulti", 1, 0), "*jpaAlias") && as(callargelem("oidc.unmarshalJSONMulti", 1, 0), "*jpaAlias") == j
+//@   ensures into-own-custom-claims: typeis(callargelem("oidc.unmarshalJSONMulti", 1, 1), "*map[string]any") && as(callargelem("oidc.unmarshalJSONMulti", 1, 1), "*map[string]any") == addr(j.Claims)
+
+//@ func oidc.LogoutTokenClaims.MarshalJSON
+//@   requires i != nil
+//@   modifies nothing
+//@   ensures merges-alias-view: called("oidc.mergeAndMarshalClaims") && typeis(callarg("oidc.mergeAndMarshalClaims", 0), "*ltcAlias") && as(callarg("oidc.mergeAndMarshalClaims", 0), "*ltcAlias") == i
+//@   ensures with-own-custom-claims: callarg("oidc.mergeAndMarshalClaims", 1) == i.Claims
+//@   ensures result-is-the-merge: result0 == callres("oidc.mergeAndMarshalClaims", 0) && result1 == callres("oidc.mergeAndMarshalClaims", 1)
+//@   ensures alias-has-no-marshaler: !hasMethod("*ltcAlias", "MarshalJSON") && !hasMethod("*ltcAlias", "UnmarshalJSON")
+//@ func oidc.LogoutTokenClaims.UnmarshalJSON
+//@   requires i != nil
+//@   ensures same-document: called("oidc.unmarshalJSONMulti") && callarg("oidc.unmarshalJSONMulti", 0) == data && result == callres("oidc.unmarshalJSONMulti", 0)
+//@   ensures into-alias-view: len(callarg("oidc.unmarshalJSONMulti", 1)) == 2 && typeis(callargelem("oidc.unmarshalJSONMulti", 1, 0), "*ltcAlias") && as(callargelem("oidc.unmarshalJSONMulti", 1, 0), "*ltcAlias") == i
+//@   ensures into-own-custom-claims: typeis(callargelem("oidc.unmarshalJSONMulti", 1, 1), "*map[string]any") && as(callargelem("oidc.unmarshalJSONMulti", 1, 1), "*map[string]any") == addr(i.Claims)
+
+//@ func oidc.UserInfo.MarshalJSON
+//@   requires u != nil
+//@   modifies nothing
+//@   ensures merges-alias-view: called("oidc.mergeAndMarshalClaims") && typeis(callarg("oidc.mergeAndMarshalClaims", 0), "*uiAlias") && as(callarg("oidc.mergeAndMarshalClaims", 0), "*uiAlias") == u
+//@   ensures with-own-custom-claims: callarg("oidc.mergeAndMarshalClaims", 1) == u.Claims
+//@   ensures result-is-the-merge: result0 == callres("oidc.mergeAndMarshalClaims", 0) && result1 == callres("oidc.mergeAndMarshalClaims", 1)
+//@   ensures alias-has-no-marshaler: !hasMethod("*uiAlias", "MarshalJSON") && !hasMethod("*uiAlias", "UnmarshalJSON")
+//@ func oidc.UserInfo.UnmarshalJSON
+//@   requires u != nil
+//@   ensures same-document: called("oidc.unmarshalJSONMulti") && callarg("oidc.unmarshalJSONMulti", 0) == data && result == callres("oidc.unmarshalJSONMulti", 0)
+//@   ensures into-alias-view: len(callarg("oidc.unmarshalJSONMulti", 1)) == 2 && typeis(callargelem("oidc.unmarshalJSONMulti", 1, 0), "*uiAlias") && as(callargelem("oidc.unmarshalJSONMulti", 1, 0), "*uiAlias") == u
+//@   ensures into-own-custom-claims: typeis(callargelem("oidc.unmarshalJSONMulti", 1, 1), "*map[string]any") && as(callargelem("oidc.unmarshalJSONMulti", 1, 1), "*map[string]any") == addr(u.Claims)
+
+//@ func oidc.IntrospectionResponse.MarshalJSON
+//@   requires i != nil
+//@   modifies i.Username
+//@   ensures merges-alias-view: called("oidc.mergeAndMarshalClaims") && typeis(callarg("oidc.mergeAndMarshalClaims", 0), "*introspectionResponseAlias") && as(callarg("oidc.mergeAndMarshalClaims", 0), "*introspectionResponseAlias") == i
+//@   ensures with-own-custom-claims: callarg("oidc.mergeAndMarshalClaims", 1) == i.Claims
+//@   ensures result-is-the-merge: result0 == callres("oidc.mergeAndMarshalClaims", 0) && result1 == callres("oidc.mergeAndMarshalClaims", 1)
+//@   ensures alias-has-no-marshaler: !hasMethod("*introspectionResponseAlias", "MarshalJSON") && !hasMethod("*introspectionResponseAlias", "UnmarshalJSON")
+//@ func oidc.IntrospectionResponse.UnmarshalJSON
+//@   requires i != nil
+//@   ensures same-document: called("oidc.unmarshalJSONMulti") && callarg("oidc.unmarshalJSONMulti", 0) == data && result == callres("oidc.unmarshalJSONMulti", 0)
+//@   ensures into-alias-view: len(callarg("oidc.unmarshalJSONMulti", 1)) == 2 && typeis(callargelem("oidc.unmarshalJSONMulti", 1, 0), "*introspectionResponseAlias") && as(callargelem("oidc.unmarshalJSONMulti", 1, 0), "*introspectionResponseAlias") == i
+//@   ensures into-own-custom-claims: typeis(callargelem("oidc.unmarshalJSONMulti", 1, 1), "*map[string]any") && as(callargelem("oidc.unmarshalJSONMulti", 1, 1), "*map[string]any") == addr(i.Claims)
+
+// JWTTokenRequest keeps its custom claims in the unexported map `private`; encoding merges the
+// registered members over it (registered wins), decoding fills both views from the same document.
+//@ func oidc.JWTTokenRequest.MarshalJSON
+//@   requires j != nil
+//@   ensures registered-only: result1 == nil && old(len(j.private)) == 0 ==> bstr(result0) == jsonMarshal(callarg("encoding/json.Marshal", 0))
+//@   ensures registered-win: result1 == nil && old(len(j.private)) > 0 ==>
+//@        forall k string :: docHas(jsonMarshal(callarg("encoding/json.Marshal", 0)), k) ==> haskey(j.private, k) && j.private[k] == docVal(jsonMarshal(callarg("encoding/json.Marshal", 0)), k)
+//@   ensures custom-kept: result1 == nil && old(len(j.private)) > 0 ==>
+//@        forall k string :: !docHas(jsonMarshal(callarg("encoding/json.Marshal", 0)), k) ==> (haskey(j.private, k) <==> old(haskey(j.private, k))) && j.private[k] == old(j.private[k])
+//@   ensures merged-map-encoded: result1 == nil && old(len(j.private)) > 0 ==> typeis(callarg("encoding/json.Marshal#2", 0), "map[string]any")
+//@        && as(callarg("encoding/json.Marshal#2", 0), "map[string]any") == j.private && bstr(result0) == jsonMarshal(callarg("encoding/json.Marshal#2", 0))
+//@ func oidc.JWTTokenRequest.UnmarshalJSON
+//@   requires j != nil
+//@   ensures both-views-same-document: result == nil ==> callarg("encoding/json.Unmarshal#1", 0) == data && callarg("encoding/json.Unmarshal#2", 0) == data
+//@   ensures custom-view-filled: result == nil ==> forall k string :: docHas(bstr(data), k) ==> haskey(j.private, k) && j.private[k] == docVal(bstr(data), k)
